@@ -1,6 +1,7 @@
 """C18, fresh-process half.  Run as:  PYTHONHASHSEED=<n> python pickle_child.py  < job.json  > result.json
 job = {"mode": "solvers", cls, cfg, prefix (history already run by the parent), blob (hex pickle of the list of solvers),
        suffix (history to run here)}      ->  {"fails": [[k, kind, why]], "outs": [...]}
+job = {"mode": "ident", blob, srcs}  ->  {"ident": [[rebuilt from its own parts is the same object, hash is the one this process computes, found in a dict keyed by that, (informative) same object as the one built from source]]}
 job = {"mode": "twin", blob, suffix}  ->  {"outs": [normalised outcome per call]}   (compared by the parent with the original's)
 job = {"mode": "exprs", blob (hex pickle of a list of ASTs)}  ->  {"structs": [...], "tables": [...]}"""
 import json, os, pickle, sys
@@ -27,6 +28,19 @@ def main():
         out = {"structs": [struct(a) for a in asts], "tables": [uni.values(a) for a in asts],
                "identical_to_local": [a is uni.parse(src) if src else None for a, src in zip(asts, job.get("srcs", []))]}
         json.dump(out, sys.stdout)
+        return
+    if job["mode"] == "ident":
+        # restored first, built here afterwards: one object, one hash (the unpickler must intern under the hash THIS process computes)
+        asts = pickle.loads(bytes.fromhex(job["blob"]))
+        out = []
+        for a, src in zip(asts, job["srcs"]):
+            # built again from its own parts (as the constructor does for any expression): hash-consing must hand back the same object
+            again = type(a).__new__(type(a), a.op, a.args, length=getattr(a, "length", None), variables=a.variables, symbolic=a.symbolic,
+                                    annotations=a.annotations, skip_child_annotations=True)
+            recomputed = a.hash() == type(a)._calc_hash(a.op, a.args, a.annotations, getattr(a, "length", None))
+            native = uni.parse(src)
+            out.append([again is a, recomputed, {again.hash(): True}.get(a.hash(), False), native is a])
+        json.dump({"ident": out}, sys.stdout)
         return
     if job["mode"] == "twin":
         # the restored tuple answers the suffix; the parent compares with what the original answered
